@@ -55,6 +55,10 @@ GeneralPolyhedra(k, c, s) == { ScaledSet \in { { LP(Scale(s, v)) : v \in W } : W
 GeneralPolygons(k, c, s)  == { ScaledSet \in { { LP(Scale(s, v)) : v \in W } : W \in kSubset(k, Cube3(c)) } :
                                ~CollinearSet(ScaledSet) /\ CoplanarSet(ScaledSet) /\ ConvexPos2(ScaledSet) }
 
+\* a seeded sample of general hulls: the cheap shard on the raw subset comes *before* the expensive convex-position test
+GenHullSample(ks, c, s, seed, n) ==
+  { HullBody(V) : V \in { V \in UNION { { W \in { { LP(Scale(s, v)) : v \in X } : X \in kSubset(k, Cube3(c)) } : Mix(CodeSet(W), seed) % n = 0 } : k \in ks }
+                          : FullDim(V) /\ ConvexPos3(V) } }
 \* integer points of the bounding box of a vertex set, expanded by m
 BBoxPts(V, m) ==
   LET xs == { P[1] : P \in V } ys == { P[2] : P \in V } zs == { P[3] : P \in V }
